@@ -10,6 +10,7 @@
 
 #include "meddly.h"
 #include "unique_table.h"
+#include "arrays.h"
 #include <cstdio>
 #include <cstdlib>
 #include <cstring>
@@ -1163,6 +1164,50 @@ static void cmd_ndrop(const std::vector<std::string> &tk)
     nodeObs();
 }
 
+// ---------------------------------------------------------------------
+// C06 / C07: the width-changing counter array of arrays.h, driven directly
+//   ctr new C | ctr inc C i [k] | ctr dec C i [k] | ctr exp C n | ctr shr C n | ctr del C
+// every command prints the element width and all values
+// ---------------------------------------------------------------------
+static std::map<std::string, std::pair<counter_array*, size_t> > CTRS;
+
+static void cmd_ctr(const std::vector<std::string> &tk)
+{
+    const std::string &op = tk[1];
+    if (op == "new") {
+        CTRS[tk[2]] = std::make_pair(new counter_array(nullptr), size_t(0));
+        emit("ctr bits=8 vals=");
+        return;
+    }
+    auto it = CTRS.find(tk[2]);
+    if (it == CTRS.end()) throw Bad("ctr: unknown array");
+    counter_array* C = it->second.first;
+    size_t &sz = it->second.second;
+    if (op == "del") { delete C; CTRS.erase(it); return; }
+    if (op == "inc" || op == "dec") {
+        size_t i = size_t(atol(tk[3].c_str()));
+        long k = tk.size() > 4 ? atol(tk[4].c_str()) : 1;
+        if (i >= sz) throw Bad("ctr: index out of range");
+        for (long j=0; j<k; j++) {
+            if (op == "inc") C->increment(i);
+            else { if (0 == C->get(i)) throw Bad("ctr: decrement of zero"); C->decrement(i); }
+        }
+    } else if (op == "exp") {
+        size_t n = size_t(atol(tk[3].c_str()));
+        C->expand(n);
+        if (n > sz) sz = n;
+    } else if (op == "shr") {
+        size_t n = size_t(atol(tk[3].c_str()));
+        for (size_t i=n; i<sz; i++) if (C->get(i)) throw Bad("ctr: shrink would drop a used counter");
+        C->shrink(n);
+        if (n < sz) sz = n;
+    } else throw Bad("ctr op");
+    std::ostringstream s;
+    s << "ctr bits=" << C->entry_bits() << " vals=";
+    for (size_t i=0; i<sz; i++) { if (i) s << ","; s << C->get(i); }
+    emit(s.str());
+}
+
 // edgeval F dbl <hex64> <hex32> | edgeval F int <v> | edgeval F inf
 // forest::getEdgeForValue / getValueForEdge of an edge-valued forest (C19)
 static void cmd_edgeval(const std::vector<std::string> &tk)
@@ -1413,6 +1458,7 @@ static void run(const std::vector<std::string> &tk)
     }
     else if (c == "term") cmd_term(tk);
     else if (c == "edgeval") cmd_edgeval(tk);
+    else if (c == "ctr") cmd_ctr(tk);
     else if (c == "nnew") cmd_nnew(tk);
     else if (c == "ndup") cmd_ndup(tk);
     else if (c == "ndrop") cmd_ndrop(tk);
